@@ -37,6 +37,8 @@ func asInt(v interface{}) int {
 		return int(x)
 	case float64:
 		return int(x)
+	case int:
+		return x
 	}
 	return 0
 }
